@@ -13,6 +13,7 @@ from . import flow
 from .common import table
 
 CRATES = {"gluon_vm", "gluon", "gluon_c_api", "gluon_check"}
+THOROUGH_CONFIGS = ["default", "nodefault"]  # thorough also analyses the default-feature and the no-default-features builds
 GET = "gluon_vm::api::Getable::from_value"
 MK = "gluon_vm::api::VmType::make_type"
 
